@@ -4,8 +4,8 @@ use std::alloc::Layout;
 
 use crate::api::*;
 use crate::arena::*;
-use crate::model::*;
-use crate::talloc::{self, with_ctx};
+use bsv_core::model::*;
+use bsv_core::talloc::{self, with_ctx};
 
 fn layout(size: usize, align: usize) -> Layout {
     Layout::from_size_align(size, align).expect("generator produced an invalid layout")
